@@ -102,13 +102,42 @@ def run_index(acc: Acc, seed: int, idx: int, nq: int, only=None) -> None:
         if r.rc != 0:
             acc.inconclusive.append(f"index {idx}: db create failed rc={r.rc} {r.err[-200:]}")
             return
+        if idx % 3 == 2:
+            # "every index content" includes indexes that were updated incrementally: remove some links /
+            # tags / notes / a whole page, then `db reindex` (leaves orphan link and tag rows behind)
+            import re as _re
+            from zmon.gen import history as hg
+
+            rels = sorted(z.pages)
+            if len(rels) > 1 and rng.random() < 0.5:
+                (root / rels[-1]).unlink()
+                rels = rels[:-1]
+            for rel_ in rels:
+                f = root / rel_
+                t = f.read_text()
+                if rng.random() < 0.7:
+                    t = _re.sub(r" \[\[[^\]\n]*\]\]", "", t, count=rng.randint(1, 6))
+                if rng.random() < 0.5:
+                    t = _re.sub(r" [#@%+][A-Za-z_0-9]+", "", t, count=rng.randint(1, 4))
+                lines, items = hg.scan(t)
+                if items and rng.random() < 0.4:
+                    s_, e_ = rng.choice(items)
+                    del lines[s_:e_]
+                    t = "\n".join(lines)
+                f.write_text(t)
+            r = db.cli(root, "db", "reindex")
+            if r.rc != 0:
+                acc.inconclusive.append(f"index {idx}: db reindex after edits failed rc={r.rc} {r.err[-200:]}")
+                return
+            acc.count("incrementally_updated_indexes")
         dump = db.dump_index(root)
         if dump.problems:
             acc.inconclusive.append(f"index {idx}: {dump.problems[:2]}")
             return
+        rf.TODAY = TODAY
         uni = rf.Universe(dump.notes)
         all_z = {n["zid"] for n in dump.notes}
-        files = {rel: (root / rel).read_text() for rel in z.pages}
+        files = {rel: (root / rel).read_text() for rel in z.pages if (root / rel).exists()}
         db.fresh_process_state()
         with SQLSession(root, db.db_url(root)) as s:
 
